@@ -216,7 +216,7 @@ func Env(extra ...string) []string {
 
 // Result is the outcome of one child process.
 type Result struct {
-	Exit     int    // exit status; -1 when the process did not exit by itself
+	Exit     int // exit status; -1 when the process did not exit by itself
 	Stdout   string
 	Stderr   string
 	TimedOut bool
